@@ -20,12 +20,12 @@ import (
 // outcomes as the real run. It has no pool, no clone/restore, no savepoints.
 
 type mval struct {
-	s     string
-	c     []string
-	isC   bool // pointer-receiver Cloner
-	isV   bool // value-receiver Cloner
-	isM   bool // map-kind Cloner with one reference element (c[0])
-	isNil bool
+	s      string
+	c      []string
+	isC    bool // pointer-receiver Cloner
+	isV    bool // value-receiver Cloner
+	isM    bool // map-kind Cloner with one reference element (c[0])
+	isNil  bool
 	isCNil bool // a nil pointer of the Cloner type
 }
 
